@@ -574,6 +574,24 @@ func c13Run(t *rapid.T) {
 				}
 				count("c13_op_reused_nested_data", 1)
 			}
+			if cacheOn && uni(t, "editinput", 8) == 0 {
+				// somebody writes another text into the exported Input field of the template Parse handed out (which is
+				// the cache's own entry), executes it, and puts the text back: the cache entry of the original text
+				// must keep rendering the original text
+				if tm2, err2 := simParse(progs[i].text); err2 == nil && tm2 != nil {
+					o := (i + 1) % nprog
+					hist = append(hist, fmt.Sprintf("Parse(prog %d).Input = text of prog %d; Exec; Input restored", i, o))
+					keep := tm2.Input
+					tm2.Input = progs[o].text
+					rt2 := newRT(o, j)
+					_, _ = safeExec(tm2, plush.NewContextWith(rt2.contextData()))
+					tm2.Input = keep
+					rt3 := newRT(i, j)
+					out3, err3 := safeRender(progs[i].text, plush.NewContextWith(rt3.contextData()))
+					compare(i, j, "Render after the cached Template's Input was edited, executed and restored", out3, err3, rt3)
+					count("c13_op_edit_input", 1)
+				}
+			}
 			if uni(t, "runscript", 12) == 0 {
 				// a script run in between (RunScript binds print/println for the script alone)
 				hist = append(hist, "RunScript(\"let rs = 1\") with a fresh context")
